@@ -163,10 +163,45 @@ def _sum(it, start=0):
     return _b.sum(it, start)
 
 
-def _hash(x):
+_HASH_FN = {}
+
+
+def _hash_leaves(x, out):
+    """flatten a value into leaves for the uninterpreted hash (assumed: Python's hash of a tuple is
+    a function of the element values, and numerically equal ints/floats hash alike)"""
     if _real_isinstance(x, SymBase):
-        raise Unsupported("hash() of a symbolic value")
-    return _b.hash(x)
+        if not is_symnum(x):
+            raise Unsupported("hash() of a symbolic sequence")
+        t, k = sym.term_of(x)
+        if k == "bool":
+            t = z3.If(t, z3.RealVal(1), z3.RealVal(0))
+        out.append(sym.as_real(t, k) if k != "bool" else t)
+        return True
+    if _real_isinstance(x, (tuple, list)):
+        out.append(z3.RealVal(_real_len(x)))
+        anysym = False
+        for e in x:
+            anysym = _hash_leaves(e, out) or anysym
+        return anysym
+    if type(x).__module__ == "affine" and type(x).__name__ == "Affine":
+        return _hash_leaves(tuple(x)[:6], out)
+    if _real_isinstance(x, bool) or _real_isinstance(x, numbers.Real):
+        out.append(sym.real_val(x))
+        return False
+    out.append(z3.RealVal(_b.hash(x) % (2**61 - 1)))
+    return False
+
+
+def _hash(x):
+    leaves = []
+    if not _hash_leaves(x, leaves):
+        return _b.hash(x)
+    n = _real_len(leaves)
+    f = _HASH_FN.get(n)
+    if f is None:
+        f = z3.Function(f"hash{n}", *([z3.RealSort()] * n), z3.IntSort())
+        _HASH_FN[n] = f
+    return SymInt(f(*leaves))
 
 
 def _str(*a, **k):
